@@ -177,6 +177,43 @@ def task_hoist_visitors():
     ex = Explorer(); ex.explore(run_vc)
     r = _finish(ex, 'C06/NodeVisitor.visit_Constant', [source.describe(ST + ':NodeVisitor.visit_Constant')])
     obs_all += r['obligations']; fns += r['functions']; notes += r['notes']
+
+    # annotations under `from __future__ import annotations` are stored as text and evaluated later in another scope: nothing inside them is visited
+    for method, tags, fld in (('visit_AnnAssign', {'AnnAssign'}, 'annotation'), ('visit_arg', {'arg'}, 'annotation'), ('visit_FunctionDef', {'FunctionDef'}, 'returns'),
+                              ('visit_AsyncFunctionDef', {'AsyncFunctionDef'}, 'returns')):
+        def run_ann(ctx, method=method, tags=tags, fld=fld):
+            policy, interp, root, o, ev, parent = setup(ctx, tags)
+            lazy = z3.Bool('module_postpones_annotation_evaluation')
+            ctx.data(o).fields['_lazy_annotations'] = lazy
+            ann = interp.getattr(root, fld)
+            import python_minifier.ast_compat as compat
+
+            def iter_fields(it, a, k):
+                nd = ctx.data(a[0])
+                if nd.kind != 'node' or len(nd.tags) != 1:
+                    raise Undecided('iter_fields of a node of unknown class')
+                return ctx.new_list([(f, it.getattr(a[0], f)) for f in tag_universe()['cls'][list(nd.tags)[0]]._fields])
+            interp.natives[compat.iter_fields] = iter_fields
+            # without a method of its own the node is handled by generic_visit, which visits every field
+            use = method if any(method in k.__dict__ for k in mod.HoistLiterals.__mro__) else 'generic_visit'
+            interp.call(interp.getattr(o, use), [root], {})
+            visited = [e[1] for e in ev if e[0] == 'visit']
+            generic = [e for e in ev if e[0] == 'generic_visit']
+            if ann is not None:
+                if ann in visited or generic:
+                    ctx.check('C06/HoistLiterals.%s/annotation-is-not-visited-when-evaluation-is-postponed' % method, z3.Not(lazy), kind='post',
+                              detail='a literal inside a stringified annotation would be replaced by a name of another scope')
+                else:
+                    ctx.check('C06/HoistLiterals.%s/cover-annotation-skipped' % method, lazy, kind='post')
+        ex = Explorer(); ex.explore(run_ann)
+        try:
+            r = _finish(ex, 'C06/HoistLiterals.' + method, [source.describe(RL + ':HoistLiterals.' + method)])
+        except source.MissingFunction:
+            r = _finish(ex, 'C06/HoistLiterals.' + method, [])
+            r['obligations'].append({'name': 'C06/HoistLiterals.%s/annotation-is-not-visited-when-evaluation-is-postponed' % method, 'status': 'refuted',
+                                     'detail': '[needs-witness] HoistLiterals has no %s: annotations are visited like any other expression' % method, 'model': {}, 'time_s': 0,
+                                     'backend': 'eval', 'path': None, 'kind': 'post', 'goal': None})
+        obs_all += r['obligations']; fns += r['functions']; notes += r['notes']
     return result(obs_all, fns, ASSUMPTIONS, notes=notes)
 
 
